@@ -588,9 +588,38 @@ static void p_prettyNumber(const MagCase &c, pbt::Ctx &ctx)
   ctx.nt(nearBoundary || c.kind == 1);
 }
 
+// ---------------------------------------------------------------- FileName objects with static storage duration
+// An application's default data directory or shader path is typically a namespace-scope FileName, constructed during
+// static initialisation - with a static librkcommon possibly BEFORE the library's own globals.  Such an object must be the
+// same value as one built from the same string inside main().
+static const char *const STATIC_NAMES[] = {"data/", "shaders\\default.ispc", "a/b.c/d.e", "/usr/share/rk/", "x", ".hidden", "dir.d/", "c:\\scenes\\cornell.obj", "a//b", ""};
+constexpr int N_STATIC_NAMES = sizeof(STATIC_NAMES) / sizeof(STATIC_NAMES[0]);
+static const FileName g_static0(STATIC_NAMES[0]), g_static1(STATIC_NAMES[1]), g_static2(STATIC_NAMES[2]), g_static3(STATIC_NAMES[3]), g_static4(STATIC_NAMES[4]),
+    g_static5(STATIC_NAMES[5]), g_static6(STATIC_NAMES[6]), g_static7(STATIC_NAMES[7]), g_static8(STATIC_NAMES[8]), g_static9(STATIC_NAMES[9]);
+static const FileName g_staticFromString(std::string("data/") + "scenes/");
+static const FileName g_staticSum = g_static0 + std::string("scenes/cornell.obj");
+static void p_filename_static(const int &i, pbt::Ctx &ctx)
+{
+  const FileName *objs[] = {&g_static0, &g_static1, &g_static2, &g_static3, &g_static4, &g_static5, &g_static6, &g_static7, &g_static8, &g_static9};
+  const int k = ((i % N_STATIC_NAMES) + N_STATIC_NAMES) % N_STATIC_NAMES;
+  const FileName &g = *objs[k];
+  const FileName now(STATIC_NAMES[k]);
+  auto same = [&](const FileName &a, const FileName &b, const char *what) {
+    PBT_ASSERT_MSG(a.str() == b.str() && a.path() == b.path() && a.base() == b.base() && a.name() == b.name() && a.ext() == b.ext(),
+        what << ": FileName(\"" << STATIC_NAMES[k] << "\") built during static initialisation is str='" << a.str() << "' path='" << a.path() << "' base='" << a.base()
+             << "', built in main it is str='" << b.str() << "' path='" << b.path() << "' base='" << b.base() << "'");
+  };
+  same(g, now, "namespace-scope object");
+  same(g_staticFromString, FileName(std::string("data/") + "scenes/"), "namespace-scope object from std::string");
+  same(g_staticSum, FileName(STATIC_NAMES[0]) + std::string("scenes/cornell.obj"), "namespace-scope operator+");
+  PBT_ASSERT(g == now);
+  ctx.nt(true);
+}
+
 static void register_properties()
 {
   using namespace rc;
+  pbt::property<int>("filename_static_init", 50, pbt::range<int>(0, 63), p_filename_static);
   pbt::property<S>("split_char", 4000, strOver("ab:", 12), p_split_char);
   pbt::property<std::tuple<S, bool>>("split_set", 4000, gen::tuple(strOver("ab:=", 12), gen::arbitrary<bool>()), p_split_set);
   pbt::property<S>("tokenize", 4000, strOver("ab:", 12), p_tokenize);
